@@ -84,7 +84,7 @@ class Lean:
         os.makedirs(WORK, exist_ok=True)
 
     def _locked(self, cmd, timeout, stdin=None):
-        with open(os.path.join(WORK, "lake.lock"), "w") as lk:
+        with open(os.path.join(WORK, "lake.lock"), "a") as lk:
             fcntl.flock(lk, fcntl.LOCK_EX)
             try:
                 return subprocess.run(cmd, cwd=LEAN_DIR, input=stdin, capture_output=True, text=True, timeout=timeout)
@@ -182,10 +182,13 @@ class Lean:
     def driver(self, name, lines, timeout=1800, args=()):
         """Run Drivers/<name>.lean on the given input lines; returns output lines."""
         data = "\n".join(lines) + "\n"
-        r = subprocess.run(
-            ["lake", "env", "lean", "--run", f"Drivers/{name}.lean", *args],
-            cwd=LEAN_DIR, input=data, capture_output=True, text=True, timeout=timeout,
-        )
+        # shared lock: drivers may run concurrently with each other but not while a build rewrites .olean files
+        with open(os.path.join(WORK, "lake.lock"), "a") as lk:
+            fcntl.flock(lk, fcntl.LOCK_SH)
+            r = subprocess.run(
+                ["lake", "env", "lean", "--run", f"Drivers/{name}.lean", *args],
+                cwd=LEAN_DIR, input=data, capture_output=True, text=True, timeout=timeout,
+            )
         if r.returncode != 0:
             raise Infra(f"driver {name} failed rc={r.returncode}: {(r.stdout + r.stderr)[-3000:]}")
         return r.stdout.split("\n")[:-1] if r.stdout.endswith("\n") else r.stdout.split("\n")
